@@ -43,6 +43,7 @@ type HarnessResult struct {
 	Inputs      []string                          `json:"inputs"`
 	Error       string                            `json:"error,omitempty"`
 	Terms       int                               `json:"terms"`
+	Shapes      int                               `json:"shapes"`
 }
 
 var allowedStdInit = map[string]bool{
@@ -267,6 +268,7 @@ func (ex *Exec) fill(res *HarnessResult, t0 time.Time) {
 	res.Incomplete = ex.incomplete
 	res.Complete = len(ex.incomplete) == 0 && res.Error == ""
 	res.Terms = len(ex.tb.all)
+	res.Shapes = len(ex.shapes)
 }
 
 // runInits executes the package initialisers of the harness package's import closure that are
